@@ -85,26 +85,45 @@ Proof.
   - constructor; [exact Hq | apply IH, Fr].
 Qed.
 
-Lemma matchVertices_total polys : Forall shell_ok polys -> forall verts counts,
-  exists r, matchVertices polys verts counts = Ok r.
+(** the repair of F16: comparing a non-empty shell with the inner rings cannot fail *)
+Lemma firstEqualInner_total (p : polygon) : shell_ok p -> forall innerRings j,
+  exists t, firstEqualInner p innerRings j = Ok t.
+Proof.
+  intros [o [a [-> Ho]]]. induction innerRings as [| inner rest IH]; intro j; cbn [firstEqualInner]; [eauto |].
+  rewrite idx_0_cons. cbn [bind]. destruct (ringsAreEqual_total o inner true false Ho) as [b Eb]. rewrite Eb. cbn [bind].
+  destruct b; [eauto | apply IH].
+Qed.
+
+Lemma cancelledBy_total innerRings : forall polys k, Forall shell_ok polys ->
+  exists m, cancelledByFrom polys innerRings k = Ok m.
+Proof.
+  induction polys as [| p polys IH]; intros k F; cbn [cancelledByFrom]; [eauto |].
+  inversion F as [| ? ? Hp Fr]; subst. destruct (firstEqualInner_total p Hp innerRings 0) as [t Et]. rewrite Et. cbn [bind].
+  destruct (IH (k + 1) Fr) as [m Em]. rewrite Em. cbn [bind]. eauto.
+Qed.
+
+Lemma matchVertices_total cancelled innerI polys : Forall shell_ok polys -> forall verts counts,
+  exists r, matchVertices cancelled innerI polys verts counts = Ok r.
 Proof.
   intro F. induction verts as [| v verts IH]; intro counts; cbn [matchVertices]; [eauto |].
   match goal with |- context [bind (?f polys 0 counts) _] => set (go := f) end.
   assert (Hgo : forall l k c, Forall shell_ok l -> exists c', go l k c = Ok c').
   { induction l as [| p l IHl]; intros k c Fl; [cbn; eauto |]. inversion Fl as [| ? ? [o [a [-> Ho]]] Fl']; subst.
     change (go ((o :: a) :: l) k c) with
-      (do outer <- idx (o :: a) 0; do cb <- ringContains outer v; go l (k + 1) (if fst cb then om_incr c k else c)).
+      (if skipCancelled cancelled k innerI then go l (k + 1) c
+       else do outer <- idx (o :: a) 0; do cb <- ringContains outer v; go l (k + 1) (if fst cb then om_incr c k else c)).
+    destruct (skipCancelled cancelled k innerI); [apply IHl, Fl' |].
     rewrite idx_0_cons. cbn [bind]. destruct (ringContains_ok o v Ho) as [cb Ecb]. rewrite Ecb. cbn [bind].
     apply IHl, Fl'. }
   destruct (Hgo polys 0 counts F) as [c1 E1]. rewrite E1. cbn [bind].
   destruct (maxWinners c1) as [k n]. destruct (n =? 1); [eauto | apply IH].
 Qed.
 
-Lemma matchInnersLoop_total : forall innerRings polys sorted turned, Forall shell_ok polys ->
-  exists r, matchInnersLoop polys innerRings sorted turned = Ok r.
+Lemma matchInnersLoop_total cancelled : forall innerRings innerI polys sorted turned, Forall shell_ok polys ->
+  exists r, matchInnersLoop cancelled innerI polys innerRings sorted turned = Ok r.
 Proof.
-  induction innerRings as [| inner rest IH]; intros polys sorted turned F; cbn [matchInnersLoop]; [eauto |].
-  destruct (matchVertices_total polys F inner []) as [[mk counts] Em]. rewrite Em. cbn [bind].
+  induction innerRings as [| inner rest IH]; intros innerI polys sorted turned F; cbn [matchInnersLoop]; [eauto |].
+  destruct (matchVertices_total cancelled innerI polys F inner []) as [[mk counts] Em]. rewrite Em. cbn [bind].
   destruct mk as [k |]; [apply IH, append_inner_shell_ok, F |].
   destruct (length counts =? 0)%nat; [apply IH, F | apply IH, append_inner_shell_ok, F].
 Qed.
@@ -113,9 +132,11 @@ Theorem match_total (outs ins : list ring) : Forall (fun x : ring => x <> []) ou
   exists ps, matchInnersToPolygons (map (fun o => [o]) outs) ins = Ok ps.
 Proof.
   intro Hne. unfold matchInnersToPolygons. destruct ins as [| i ins]; [eauto |].
-  destruct (matchInnersLoop_total (i :: ins) (map (fun o : ring => [o]) outs) None []) as [r E].
-  - rewrite Forall_forall in *. intros p Hp. apply in_map_iff in Hp. destruct Hp as [o [<- Ho]]. exists o, []. auto.
-  - rewrite E. cbn [bind]. eauto.
+  assert (F : Forall shell_ok (map (fun o : ring => [o]) outs)).
+  { rewrite Forall_forall in *. intros p Hp. apply in_map_iff in Hp. destruct Hp as [o [<- Ho]]. exists o, []. auto. }
+  unfold cancelledBy. destruct (cancelledBy_total (i :: ins) _ 0 F) as [cancelled Ec]. rewrite Ec. cbn [bind].
+  destruct (matchInnersLoop_total cancelled (i :: ins) 0 (map (fun o : ring => [o]) outs) None [] F) as [r E].
+  rewrite E. cbn [bind]. eauto.
 Qed.
 
 (** ** the level assembly *)
